@@ -198,7 +198,7 @@ def check_one(con, vname, fn, case, env0, timeout_s=5, pid=None):
     for e, expect in raise_expect.items():
         if expect:
             failures.append((f'raises:{e}:must', f'returned {describe(result)!r} although {e} is required'))
-    if con.yields or con._filter(con.final, pid):
+    if con._filter(con.yields, pid) or con._filter(con.final, pid):
         # generator under contract: drain it (bounded), checking the yield clauses item by item
         for gname, gdef in list(con.ghost.get('defs', {}).items()) + \
                 list((con.variants.get(vname, {}) if vname else {}).get('ghost_defs', {}).items()):
@@ -215,7 +215,7 @@ def check_one(con, vname, fn, case, env0, timeout_s=5, pid=None):
                     env['out'] = list(out)
                     env['item'] = bytes(item) if isinstance(item, (bytes, bytearray)) else item
                     env['item_obj'] = item
-                    for name, text in con.yields.items():
+                    for name, text in con._filter(con.yields, pid).items():
                         try:
                             if not eval_clause(text, env):
                                 failures.append((f'yield:{name}', f'clause false at item {len(out)}: {describe(item)!r}'))
